@@ -37,6 +37,7 @@ func init() {
 		"h.vmslice":        exVmSlice,
 		"go.h.tuplebroken": goTupleBroken,
 		"go.h.zeroslice":   goZeroSlice,
+		"go.net.gettx":     goNetGetTx,
 	}
 	for k, v := range tlbExec {
 		ex[k] = v
@@ -93,6 +94,9 @@ func (gc *genCtx) genHelpers() {
 		}
 		g.Emit("h.vmslice", strconv.Itoa(bits), strconv.Itoa(refs), strconv.Itoa(st), strconv.Itoa(en), strconv.Itoa(sr), strconv.Itoa(er))
 		g.NonTrivial(fmt.Sprint("vmslice", bits, refs, st, en, sr, er))
+	}
+	for _, p := range [][2]int{{0, 0}, {1, 1}, {2, 2}, {0, 1}, {1, 2}, {2, 1}, {3, 0}} {
+		g.Emit("go.net.gettx", strconv.Itoa(p[0]), strconv.Itoa(p[1]))
 	}
 	g.Emit("go.h.tuplebroken")
 	g.Emit("go.h.zeroslice")
